@@ -2506,6 +2506,7 @@ def run(ctx):
     finally:
         stream("oracle.reemit", oracle_reemit, exprs[: (1200 if q else 8000)])
         stream("oracle.template-values", oracle_template_values, 150 if q else 1500)
+        stream("oracle.signatures", oracle_signatures, 250 if q else 4000)
         stream("oracle.blocks", oracle_blocks, execs[: (200 if q else 2000)] + execs[n_exec: n_exec + (30 if q else 300)])
         stream("oracle.identifiers", oracle_identifiers, blocks[: (800 if q else 6000)])
         stream("oracle.strict", oracle_strict_undefined,
@@ -2555,6 +2556,11 @@ def replay(ctx, data):
         except Exception as e:
             print("model: n/a", e)
         return not probs
+    if site == "signature-binds-different-values":
+        ck = [tuple(kv) for kv in case["call_kw"]]
+        got, want = sig_template(case["slot"], case["params"], case["call_pos"], ck), sig_native(case["params"], case["call_pos"], ck)
+        print("template:", got, "\nnative  :", want)
+        return got == want
     if isinstance(case, dict) and case.get("parent") == "filter-callee":
         from mako.template import Template
         try:
@@ -2585,3 +2591,163 @@ def canon_text(s):
 
 
 DRIVER_OPS = ["py"]   # per-area driver executable(s) this check talks to (built before any worker is forked)
+
+
+# =========================================================================== oracle: signatures of defs in real templates
+
+class SigGen:
+    """def signatures with every parameter kind and defaults in every legal position, plus a call"""
+
+    def __init__(self, rng):
+        self.rng = rng
+
+    def gen(self):
+        r = self.rng
+        params = []
+        npos = r.choice([0, 1, 1, 2, 3])
+        ndef = r.randint(0, npos)
+        vals = iter(["11", "'dB'", "(3 if 1 else 4)", "2 ** 3", "[5]", "66", "'dG'", "-8", "(lambda: 9)()", "1.5"])
+        for i in range(npos):
+            params.append({"name": "p%d" % i, "kind": "pos", "default": next(vals) if i >= npos - ndef else None})
+        star = r.random() < 0.6
+        nkw = r.choice([0, 1, 2, 2, 3, 4])
+        if star:
+            params.append({"name": "r", "kind": "star", "default": None})
+        elif nkw:
+            params.append({"name": "", "kind": "bare", "default": None})
+        for n in "abcd"[:nkw]:
+            params.append({"name": n, "kind": "kw", "default": next(vals) if r.random() < 0.5 else None})
+        if r.random() < 0.3:
+            params.append({"name": "kw", "kind": "dstar", "default": None})
+        # the call: some positional values, a subset of the keyword-only names (biased towards the required ones)
+        call_pos = ["%d" % (100 + i) for i in range(r.randint(0, npos + (2 if star else 0)))]
+        call_kw = []
+        for p in params:
+            if p["kind"] == "kw" and r.random() < (0.85 if p["default"] is None else 0.4):
+                call_kw.append((p["name"], "'K%s'" % p["name"]))
+        if any(p["kind"] == "dstar" for p in params) and r.random() < 0.5:
+            call_kw.append(("extra", "'X'"))
+        return params, call_pos, call_kw
+
+
+def sig_text(params):
+    out = []
+    for p in params:
+        if p["kind"] == "star":
+            out.append("*" + p["name"])
+        elif p["kind"] == "bare":
+            out.append("*")
+        elif p["kind"] == "dstar":
+            out.append("**" + p["name"])
+        else:
+            out.append(p["name"] + ("=" + p["default"] if p["default"] is not None else ""))
+    return ", ".join(out)
+
+
+def call_text(call_pos, call_kw):
+    return ", ".join(list(call_pos) + ["%s=%s" % kv for kv in call_kw])
+
+
+def sig_names(params):
+    return [p["name"] for p in params if p["kind"] != "bare"]
+
+
+SIG_SLOTS = {
+    "def": '<%%def name="zz(%(sig)s)">${repr((%(names)s,))}</%%def>${zz(%(call)s)}',
+    "nested-def": '<%%def name="outer()"><%%def name="zz(%(sig)s)">${repr((%(names)s,))}</%%def>${zz(%(call)s)}</%%def>${outer()}',
+    "def-called-twice": '<%%def name="zz(%(sig)s)">${repr((%(names)s,))}</%%def>${zz(%(call)s)}|${zz(%(call)s)}',
+}
+
+
+def sig_template(slot, params, call_pos, call_kw):
+    from mako.template import Template
+    d = {"sig": sig_text(params), "names": ", ".join(sig_names(params)), "call": call_text(call_pos, call_kw)}
+    text = SIG_SLOTS[slot] % d
+    if '"' in d["sig"]:
+        return ("skip", "")
+    try:
+        with time_limit(10):
+            out = Template(text).render().strip()
+        return ("ok", out.split("|")[0])
+    except Hang:
+        raise
+    except RecursionError:
+        raise
+    except Exception as e:
+        return ("exc", type(e).__name__)
+
+
+def sig_native(params, call_pos, call_kw):
+    g = {}
+    try:
+        exec("def zz(%s):\n    return repr((%s,))" % (sig_text(params), ", ".join(sig_names(params))), g)
+        return ("ok", eval("zz(%s)" % call_text(call_pos, call_kw), g))
+    except RecursionError:
+        raise
+    except Exception as e:
+        return ("exc", type(e).__name__)
+
+
+def oracle_signatures(ctx, n):
+    """defs whose signature mako parses (FunctionDecl) and re-emits (get_argument_expressions) for the render function
+    and its stub: the values bound to every parameter - and TypeError for a bad call - as for the same signature on a
+    native function"""
+    st = ctx.stream("oracle.signatures", "oracle")
+    g = SigGen(ctx.rng)
+    slots = list(SIG_SLOTS)
+    reported = {}
+    fixed = [
+        ([{"name": "r", "kind": "star", "default": None}, {"name": "a", "kind": "kw", "default": "1"},
+          {"name": "b", "kind": "kw", "default": None}], [], [("b", "5")]),
+        ([{"name": "r", "kind": "star", "default": None}, {"name": "a", "kind": "kw", "default": "1"},
+          {"name": "b", "kind": "kw", "default": "2"}, {"name": "c", "kind": "kw", "default": None},
+          {"name": "d", "kind": "kw", "default": "4"}], ["7"], [("c", "3")]),
+        ([{"name": "p0", "kind": "pos", "default": None}, {"name": "p1", "kind": "pos", "default": "'x'"},
+          {"name": "", "kind": "bare", "default": None}, {"name": "a", "kind": "kw", "default": None},
+          {"name": "b", "kind": "kw", "default": "9"}], ["1"], [("a", "2")]),
+    ]
+    cases = fixed + [g.gen() for _ in range(n)]
+    for i, (params, cp, ck) in enumerate(cases):
+        slot = slots[i % len(slots)]
+        want = sig_native(params, cp, ck)
+        got = sig_template(slot, params, cp, ck)
+        if got[0] == "skip":
+            continue
+        st["cases"] += 1
+        ctx.branch("oracle.signatures:native:" + (want[0] if want[0] == "ok" else want[1]))
+        if any(p["kind"] == "kw" for p in params):
+            ctx.nontriv(("sig", sig_text(params), call_text(cp, ck)))
+        if got == want:
+            continue
+
+        def fails(ps, cp2, ck2, slot=slot):
+            w = sig_native(ps, cp2, ck2)
+            if w[0] == "exc" and w[1] == "SyntaxError":
+                return False
+            g2 = sig_template(slot, ps, cp2, ck2)
+            return g2[0] != "skip" and g2 != w
+        changed = True
+        while changed:
+            changed = False
+            for j, p in enumerate(params):
+                ps = params[:j] + params[j + 1:]
+                if p["kind"] in ("star", "bare") and any(q["kind"] == "kw" for q in ps):
+                    continue
+                ck2 = [kv for kv in ck if kv[0] != p["name"]]
+                cp2 = cp[: max(0, len(cp) - 1)] if p["kind"] == "pos" and len(cp) >= len([q for q in params if q["kind"] == "pos"]) else cp
+                if fails(ps, cp2, ck2):
+                    params, cp, ck, changed = ps, cp2, ck2, True
+                    break
+            if not changed and cp and fails(params, cp[:-1], ck):
+                cp, changed = cp[:-1], True
+        kinds = sorted({p["kind"] for p in params})
+        key = tuple(kinds)
+        ctx.branch("oracle.signatures:VIOLATION:" + "+".join(kinds))
+        if key in reported:
+            continue
+        reported[key] = True
+        ctx.violation("signature-binds-different-values",
+                      {"input": "def zz(%s) called as zz(%s)" % (sig_text(params), call_text(cp, ck)), "slot": slot,
+                       "params": params, "call_pos": cp, "call_kw": [list(kv) for kv in ck], "kinds": "+".join(kinds)},
+                      "template gives %r, the native function gives %r" % (sig_template(slot, params, cp, ck), sig_native(params, cp, ck)),
+                      "oracle.signatures")
